@@ -109,5 +109,12 @@ theorem six_transformations_verdict_memo (s : SchemaD) (fx : Fixes) (hfx : HeadV
 /-! non-vacuity: the two-fragment document satisfies `DocOkM`, and `oSchema` has output-typed fields -/
 example : DocOkM oSchema (oDocFrag "a") := ⟨⟨by decide, by decide⟩, by unfold NamesNonEmpty; decide⟩
 example : SchemaOutputs oSchema := schemaOutputs_of_check oSchema (by decide)
+/-- the verdict on the two-fragment document and on its image under "reverse every selection and argument list, rename
+    the fragments" -/
+example : (∀ r ∈ Rule.all, SilentM oSchema Fixes.all r (revRenameTr.doc (oDocFrag "a"))) ↔
+    (∀ r ∈ Rule.all, SilentM oSchema Fixes.all r (oDocFrag "a")) :=
+  tr_verdict_invariance_memo revRenameTr revRenameTr_inj oSchema Fixes.all headVars_all
+    (schemaOutputs_of_check oSchema (by decide)) (oDocFrag "a")
+    ⟨⟨by decide, by decide⟩, by unfold NamesNonEmpty; decide⟩ (by unfold NamesNonEmpty; decide)
 
 end PyGql.Props.C06
